@@ -1,20 +1,214 @@
 /-
-Executable model of `peg_compile1` (peg.c:1381-1536) and the `spec_*` emitters for the forms whose compilation is a direct
-encoding: the rule header is reserved first, then the sub-forms are compiled in order right behind it, and their
-addresses are patched into the header - so a form compiled at address `base` occupies a contiguous block.
+Executable model of the PEG compiler: `peg_compile1` (peg.c:1377-1532), the `spec_*` emitters of `peg_specials[]`, the
+rule cache, keyword references, nested grammar tables and the constants table.
 
-Not modelled here: the rule cache (a form that occurs twice is compiled once by the real compiler), keyword references and
-nested grammars, the constants table (`constant`, `replace`, `cmt`), tag numbering (tags are taken as numbers).
-The model is tied to peg.c by correspondence (words produced here = words of the real `peg/compile`, checks/C12.py) and
-its output is checked against the source form by the proved-sound validator (Peg/Validate.lean) - there is no separate
-structural-induction proof about the layout.
+C side                                       model
+-------------------------------------------  -------------------------------------------------------------------------
+Builder.bytecode / .constants / .has_backref  `B.code` / `B.consts` / `B.hasBackref`
+Builder.depth                                 the recursion parameter `d` of `compile1` (JANET_RECURSION_GUARD at the top)
+Builder.grammar (JanetTable *, ->proto)       `g : Option Nat` = index into `B.heap` (`none` = the root table of compile_peg);
+                                              a grammar table holds the keyword bindings (`rules`) AND the rule cache
+                                              (`cache`: form -> rule address) exactly like the C table does
+root table                                    `B.prims` (primitive forms: cached globally, `which_grammar = root`) and
+                                              `B.root` (tuples compiled outside every grammar)
+keyword loop `for (; i > 0 && keyword; --i)`  `resolveKw`  (janet_table_get_ex = `lookupKw`: found -> grammar moves to the
+                                              table that binds the name; not found -> default grammar, grammar unchanged)
+cache check / cache put                       `getCache` / `putCache` (tuples: rawget in the current table only)
+case JANET_STRUCT                             new table (proto = current grammar), main rule compiled in it, NOT cached
+reserve / emit_rule / emit_bytes              `reserve` / `patch` with the words of `encode`
+spec_* (one per entry of peg_specials[])      `shape` (argument checks `peg_getnat`, `peg_getrange`, ... = the conditions) gives
+                                              the instruction with the sub-FORMS as operands; `compileKids` compiles them in
+                                              order (spec_variadic / spec_branch / spec_onerule / spec_cap1 / ...); `encode`
+                                              lays out the header words (emit_1/2/3, emit_rule, emit_bytes)
+emit_constant                                 `emitConst` (after the sub-rule, as in spec_replace / spec_matchtime)
+b->has_backref = 1                            `readsTags` (spec_reference, spec_backmatch)
+
+`B.log` and `Tbl.sc` are ghost fields (never read by the compiler): the list of (rule address, source closure) pairs of all
+`peg_compile1` calls, and the lexical scope chain of a table.  They carry the simulation relation of `compile_correct`
+(Peg/CompileLemmas.lean, Props/C12.lean).
+
+Explicitly rejected by the model (`none`) although peg.c accepts: grammar nesting deeper than JANET_MAX_PROTO_DEPTH tables
+(table lookups stop there), reference chains that cross nested grammars with more than 1023 links in total (each
+peg_compile1 call allows 1023).  Tags are numbers here (the harness numbers keywords in `emit_tag` order).
 Core Lean only.
 -/
 import JanetModel.Peg.Spec
+import JanetModel.Peg.Decode
 import JanetModel.Gen.Peg
 
-namespace JanetModel.Peg.Compile
-open JanetModel.Peg JanetModel.Peg.Spec JanetModel.Gen.Peg
+namespace JanetModel.Peg
+
+/-! ### structural equality of forms (janet_equals on the source data = key of the rule cache) -/
+
+mutual
+def Val.beq : Val → Val → Bool
+  | .nil, .nil => true
+  | .bool a, .bool b => a == b
+  | .int a, .int b => a == b
+  | .str a, .str b => a == b
+  | .kw a, .kw b => a == b
+  | .arr a, .arr b => Val.beqL a b
+  | .s64 a, .s64 b => a == b
+  | .u64 a, .u64 b => a == b
+  | .struct a, .struct b => Val.beqS a b
+  | .fn a, .fn b => a == b
+  | _, _ => false
+def Val.beqL : List Val → List Val → Bool
+  | [], [] => true
+  | a :: as, b :: bs => Val.beq a b && Val.beqL as bs
+  | _, _ => false
+def Val.beqS : List (Key × Val) → List (Key × Val) → Bool
+  | [], [] => true
+  | (k, a) :: as, (k', b) :: bs => k == k' && Val.beq a b && Val.beqS as bs
+  | _, _ => false
+end
+
+open Spec in
+mutual
+def Spec.Patt.beq : Patt → Patt → Bool
+  | .str a, .str b => a == b
+  | .int a, .int b => a == b
+  | .bool a, .bool b => a == b
+  | .ref a, .ref b => a == b
+  | .range a, .range b => a == b
+  | .set a, .set b => a == b
+  | .look o p, .look o' p' => o == o' && p.beq p'
+  | .choice ps, .choice qs => Spec.Patt.beqL ps qs
+  | .seq ps, .seq qs => Spec.Patt.beqL ps qs
+  | .if_ c p, .if_ c' p' => c.beq c' && p.beq p'
+  | .ifnot c p, .ifnot c' p' => c.beq c' && p.beq p'
+  | .not p, .not p' => p.beq p'
+  | .any p, .any p' => p.beq p'
+  | .some p, .some p' => p.beq p'
+  | .opt p, .opt p' => p.beq p'
+  | .between lo hi p, .between lo' hi' p' => lo == lo' && hi == hi' && p.beq p'
+  | .atleast n p, .atleast n' p' => n == n' && p.beq p'
+  | .atmost n p, .atmost n' p' => n == n' && p.beq p'
+  | .repeat_ n p, .repeat_ n' p' => n == n' && p.beq p'
+  | .to p, .to p' => p.beq p'
+  | .thru p, .thru p' => p.beq p'
+  | .capture p t, .capture p' t' => t == t' && p.beq p'
+  | .accumulate p t, .accumulate p' t' => t == t' && p.beq p'
+  | .group p t, .group p' t' => t == t' && p.beq p'
+  | .drop p, .drop p' => p.beq p'
+  | .onlytags p, .onlytags p' => p.beq p'
+  | .replace p v t, .replace p' v' t' => t == t' && Val.beq v v' && p.beq p'
+  | .cmt p v t, .cmt p' v' t' => t == t' && Val.beq v v' && p.beq p'
+  | .constant v t, .constant v' t' => t == t' && Val.beq v v'
+  | .argument n t, .argument n' t' => n == n' && t == t'
+  | .position t, .position t' => t == t'
+  | .line t, .line t' => t == t'
+  | .column t, .column t' => t == t'
+  | .backref s t, .backref s' t' => s == s' && t == t'
+  | .backmatch t, .backmatch t' => t == t'
+  | .unref p t, .unref p' t' => t == t' && p.beq p'
+  | .nth n p t, .nth n' p' t' => n == n' && t == t' && p.beq p'
+  | .error none, .error none => true
+  | .error (some p), .error (some p') => p.beq p'
+  | .lenprefix a p, .lenprefix a' p' => a.beq a' && p.beq p'
+  | .sub a p, .sub a' p' => a.beq a' && p.beq p'
+  | .split a p, .split a' p' => a.beq a' && p.beq p'
+  | .til a p, .til a' p' => a.beq a' && p.beq p'
+  | .readint w s b t, .readint w' s' b' t' => w == w' && s == s' && b == b' && t == t'
+  | .number p b t, .number p' b' t' => b == b' && t == t' && p.beq p'
+  | .grammar rs, .grammar rs' => Spec.Patt.beqR rs rs'
+  | _, _ => false
+def Spec.Patt.beqL : List Patt → List Patt → Bool
+  | [], [] => true
+  | a :: as, b :: bs => a.beq b && Spec.Patt.beqL as bs
+  | _, _ => false
+def Spec.Patt.beqR : List (String × Patt) → List (String × Patt) → Bool
+  | [], [] => true
+  | (n, a) :: as, (m, b) :: bs => n == m && a.beq b && Spec.Patt.beqR as bs
+  | _, _ => false
+end
+
+/-! ### instructions: operands that are sub-rules -/
+
+def Instr.kids {ρ : Type} : Instr ρ → List ρ
+  | .look _ r => [r]
+  | .choice rs => rs
+  | .sequence rs => rs
+  | .if_ a b => [a, b]
+  | .ifnot a b => [a, b]
+  | .not a => [a]
+  | .between _ _ r => [r]
+  | .capture r _ => [r]
+  | .accumulate r _ => [r]
+  | .group r _ => [r]
+  | .replace r _ _ => [r]
+  | .matchtime r _ _ => [r]
+  | .error r => [r]
+  | .drop r => [r]
+  | .to r => [r]
+  | .thru r => [r]
+  | .lenprefix a b => [a, b]
+  | .unref r _ => [r]
+  | .capturenum r _ _ => [r]
+  | .sub a b => [a, b]
+  | .til a b => [a, b]
+  | .split a b => [a, b]
+  | .nth _ r _ => [r]
+  | .onlytags r => [r]
+  | _ => []
+
+/-- the same instruction with the sub-rule operands replaced, in order, by `ks` -/
+def Instr.rebuild {ρ σ : Type} [Inhabited σ] : Instr ρ → List σ → Instr σ
+  | .literal b, _ => .literal b
+  | .nchar n, _ => .nchar n
+  | .notnchar n, _ => .notnchar n
+  | .range lo hi, _ => .range lo hi
+  | .set bm, _ => .set bm
+  | .look o _, ks => .look o (ks.getD 0 default)
+  | .choice _, ks => .choice ks
+  | .sequence _, ks => .sequence ks
+  | .if_ _ _, ks => .if_ (ks.getD 0 default) (ks.getD 1 default)
+  | .ifnot _ _, ks => .ifnot (ks.getD 0 default) (ks.getD 1 default)
+  | .not _, ks => .not (ks.getD 0 default)
+  | .between lo hi _, ks => .between lo hi (ks.getD 0 default)
+  | .gettag s t, _ => .gettag s t
+  | .capture _ t, ks => .capture (ks.getD 0 default) t
+  | .position t, _ => .position t
+  | .argument i t, _ => .argument i t
+  | .constant v t, _ => .constant v t
+  | .accumulate _ t, ks => .accumulate (ks.getD 0 default) t
+  | .group _ t, ks => .group (ks.getD 0 default) t
+  | .replace _ v t, ks => .replace (ks.getD 0 default) v t
+  | .matchtime _ v t, ks => .matchtime (ks.getD 0 default) v t
+  | .error _, ks => .error (ks.getD 0 default)
+  | .drop _, ks => .drop (ks.getD 0 default)
+  | .backmatch t, _ => .backmatch t
+  | .to _, ks => .to (ks.getD 0 default)
+  | .thru _, ks => .thru (ks.getD 0 default)
+  | .lenprefix _ _, ks => .lenprefix (ks.getD 0 default) (ks.getD 1 default)
+  | .readint f t, _ => .readint f t
+  | .line t, _ => .line t
+  | .column t, _ => .column t
+  | .unref _ t, ks => .unref (ks.getD 0 default) t
+  | .capturenum _ b t, ks => .capturenum (ks.getD 0 default) b t
+  | .sub _ _, ks => .sub (ks.getD 0 default) (ks.getD 1 default)
+  | .til _ _, ks => .til (ks.getD 0 default) (ks.getD 1 default)
+  | .split _ _, ks => .split (ks.getD 0 default) (ks.getD 1 default)
+  | .nth n _ t, ks => .nth n (ks.getD 0 default) t
+  | .onlytags _, ks => .onlytags (ks.getD 0 default)
+
+/-- the constant operand (RULE_CONSTANT, RULE_REPLACE, RULE_MATCHTIME index the constants table) -/
+def Instr.constOf {ρ : Type} : Instr ρ → Option Val
+  | .constant v _ => some v
+  | .replace _ v _ => some v
+  | .matchtime _ v _ => some v
+  | _ => none
+
+/-- spec_reference / spec_backmatch set `b->has_backref` -/
+def Instr.readsTags {ρ : Type} : Instr ρ → Bool
+  | .gettag _ _ => true
+  | .backmatch _ => true
+  | _ => false
+
+namespace Compile
+open JanetModel.Peg.Spec JanetModel.Gen.Peg
+
+instance : Inhabited Closure := ⟨⟨[], .bool true⟩⟩
 
 /-- emit_bytes: bytes packed little-endian into 32-bit words -/
 def packBytes : List Nat → List Nat
@@ -24,82 +218,287 @@ def packBytes : List Nat → List Nat
   | [a, b, c] => [a + 256 * b + 65536 * c]
   | a :: b :: c :: d :: rest => (a + 256 * b + 65536 * c + 16777216 * d) :: packBytes rest
 
+/-- `(uint32_t) offset` -/
 def u32 (n : Int) : Nat := if n < 0 then (n + 4294967296).toNat else n.toNat
 
-mutual
-/-- words of `p` compiled at address `base` (fuel bounds the nesting) -/
-def compileAt : Nat → Nat → Patt → Option (List Nat)
-  | 0, _, _ => none
-  | k + 1, base, p =>
-    let one (op : Nat) (pre : List Nat) (post : List Nat) (q : Patt) (hdr : Nat) : Option (List Nat) := do
-      -- header: op, pre..., <child address>, post...   ; child directly behind the header
-      let ws ← compileAt k (base + hdr) q
-      pure ([op] ++ pre ++ [base + hdr] ++ post ++ ws)
-    let two (op : Nat) (a b : Patt) : Option (List Nat) := do
-      let wa ← compileAt k (base + 3) a
-      let wb ← compileAt k (base + 3 + wa.length) b
-      pure ([op, base + 3, base + 3 + wa.length] ++ wa ++ wb)
-    match p with
-    | .str b => some ([RULE_LITERAL, b.length] ++ packBytes b)
-    | .int n => some (if n < 0 then [RULE_NOTNCHAR, (-n).toNat] else [RULE_NCHAR, n.toNat])
-    | .bool true => some [RULE_NCHAR, 0]
-    | .bool false => some [RULE_NOTNCHAR, 0]
-    | .range [(lo, hi)] => some [RULE_RANGE, lo + 65536 * hi]
-    | .range rs => some (RULE_SET :: bitmapOf (fun c => rs.any (fun r => r.1 ≤ c ∧ c ≤ r.2)))
-    | .set chars => some (RULE_SET :: bitmapOf (fun c => chars.contains c))
-    | .look off q => do
-      let ws ← compileAt k (base + 3) q
-      pure ([RULE_LOOK, u32 off, base + 3] ++ ws)
-    | .choice ps => do
-      let (addrs, ws) ← compileList k (base + 2 + ps.length) ps
-      pure ([RULE_CHOICE, ps.length] ++ addrs ++ ws)
-    | .seq ps => do
-      let (addrs, ws) ← compileList k (base + 2 + ps.length) ps
-      pure ([RULE_SEQUENCE, ps.length] ++ addrs ++ ws)
-    | .if_ c q => two RULE_IF c q
-    | .ifnot c q => two RULE_IFNOT c q
-    | .lenprefix n q => two RULE_LENPREFIX n q
-    | .sub w q => two RULE_SUB w q
-    | .til t q => two RULE_TIL t q
-    | .split s q => two RULE_SPLIT s q
-    | .not q => one RULE_NOT [] [] q 2
-    | .to q => one RULE_TO [] [] q 2
-    | .thru q => one RULE_THRU [] [] q 2
-    | .drop q => one RULE_DROP [] [] q 2
-    | .onlytags q => one RULE_ONLY_TAGS [] [] q 2
-    | .error (some q) => one RULE_ERROR [] [] q 2
-    | .error none => some [RULE_ERROR, base + 2, RULE_NCHAR, 0]
-    | .any q => one RULE_BETWEEN [0, uintMax] [] q 4
-    | .some q => one RULE_BETWEEN [1, uintMax] [] q 4
-    | .opt q => one RULE_BETWEEN [0, 1] [] q 4
-    | .between lo hi q => one RULE_BETWEEN [lo, hi] [] q 4
-    | .atleast n q => one RULE_BETWEEN [n, uintMax] [] q 4
-    | .atmost n q => one RULE_BETWEEN [0, n] [] q 4
-    | .repeat_ n q => one RULE_BETWEEN [n, n] [] q 4
-    | .capture q tag => one RULE_CAPTURE [] [tag] q 3
-    | .accumulate q tag => one RULE_ACCUMULATE [] [tag] q 3
-    | .group q tag => one RULE_GROUP [] [tag] q 3
-    | .unref q tag => one RULE_UNREF [] [tag] q 3
-    | .nth n q tag => one RULE_NTH [n] [tag] q 4
-    | .number q b tag => one RULE_CAPTURE_NUM [] [b, tag] q 4
-    | .position tag => some [RULE_POSITION, tag]
-    | .line tag => some [RULE_LINE, tag]
-    | .column tag => some [RULE_COLUMN, tag]
-    | .backmatch tag => some [RULE_BACKMATCH, tag]
-    | .backref s tag => some [RULE_GETTAG, s, tag]
-    | .argument n tag => some [RULE_ARGUMENT, n, tag]
-    | .readint w sg be tag => some [RULE_READINT, w + (if sg then 16 else 0) + (if be then 32 else 0), tag]
-    | _ => none
-/-- spec_variadic: the sub-forms one after the other from `base`; returns their addresses and the words -/
-def compileList : Nat → Nat → List Patt → Option (List Nat × List Nat)
-  | 0, _, _ => none
-  | _, _, [] => some ([], [])
-  | k + 1, base, p :: ps => do
-    let w ← compileAt k base p
-    let (addrs, ws) ← compileList k (base + w.length) ps
-    pure (base :: addrs, w ++ ws)
-end
+/-- header words of a rule (emit_1 / emit_2 / emit_3 / emit_rule / emit_bytes / spec_variadic); `c` = constants index -/
+def encode : Instr Nat → Nat → List Nat
+  | .literal b, _ => [RULE_LITERAL, b.length] ++ packBytes b
+  | .nchar n, _ => [RULE_NCHAR, n]
+  | .notnchar n, _ => [RULE_NOTNCHAR, n]
+  | .range lo hi, _ => [RULE_RANGE, lo + 65536 * hi]
+  | .set bm, _ => RULE_SET :: bm
+  | .look o r, _ => [RULE_LOOK, u32 o, r]
+  | .choice rs, _ => [RULE_CHOICE, rs.length] ++ rs
+  | .sequence rs, _ => [RULE_SEQUENCE, rs.length] ++ rs
+  | .if_ a b, _ => [RULE_IF, a, b]
+  | .ifnot a b, _ => [RULE_IFNOT, a, b]
+  | .not a, _ => [RULE_NOT, a]
+  | .between lo hi r, _ => [RULE_BETWEEN, lo, hi, r]
+  | .gettag s t, _ => [RULE_GETTAG, s, t]
+  | .capture r t, _ => [RULE_CAPTURE, r, t]
+  | .position t, _ => [RULE_POSITION, t]
+  | .argument i t, _ => [RULE_ARGUMENT, i, t]
+  | .constant _ t, c => [RULE_CONSTANT, c, t]
+  | .accumulate r t, _ => [RULE_ACCUMULATE, r, t]
+  | .group r t, _ => [RULE_GROUP, r, t]
+  | .replace r _ t, c => [RULE_REPLACE, r, c, t]
+  | .matchtime r _ t, c => [RULE_MATCHTIME, r, c, t]
+  | .error r, _ => [RULE_ERROR, r]
+  | .drop r, _ => [RULE_DROP, r]
+  | .backmatch t, _ => [RULE_BACKMATCH, t]
+  | .to r, _ => [RULE_TO, r]
+  | .thru r, _ => [RULE_THRU, r]
+  | .lenprefix a b, _ => [RULE_LENPREFIX, a, b]
+  | .readint f t, _ => [RULE_READINT, f, t]
+  | .line t, _ => [RULE_LINE, t]
+  | .column t, _ => [RULE_COLUMN, t]
+  | .unref r t, _ => [RULE_UNREF, r, t]
+  | .capturenum r b t, _ => [RULE_CAPTURE_NUM, r, b, t]
+  | .sub a b, _ => [RULE_SUB, a, b]
+  | .til a b, _ => [RULE_TIL, a, b]
+  | .split a b, _ => [RULE_SPLIT, a, b]
+  | .nth n r t, _ => [RULE_NTH, n, r, t]
+  | .onlytags r, _ => [RULE_ONLY_TAGS, r]
 
-def compile (p : Patt) : Option (List Nat) := compileAt 64 0 p
+/-- words reserved for the rule header (`reserve(b, n)`; for literals and variadic rules the pushes of emit_bytes /
+    spec_variadic) -/
+def encSize {ρ : Type} (i : Instr ρ) : Nat := (encode (i.rebuild (i.kids.map (fun _ => 0))) 0).length
 
-end JanetModel.Peg.Compile
+def isInt32 (n : Int) : Bool := -2147483648 ≤ n && n ≤ 2147483647
+def isNat31 (n : Nat) : Bool := n ≤ int32Max
+def okTag (t : Nat) : Bool := t ≤ 255
+
+/-- One source tuple / primitive as the instruction it compiles to, sub-forms as operands; `none` = peg_panic (argument
+    checks of the spec_* function) or not a tuple / primitive (keyword, struct). -/
+def shape : Patt → Option (Instr Patt)
+  | .str b => if b.all (· < 256) then some (.literal b) else none
+  | .int n => if isInt32 n then some (if n < 0 then .notnchar (-n).toNat else .nchar n.toNat) else none
+  | .bool true => some (.nchar 0)
+  | .bool false => some (.notnchar 0)
+  | .ref _ => none
+  | .grammar _ => none
+  | .range [] => none                                                    -- spec_range: peg_arity(b, argc, 1, -1)
+  | .range [(lo, hi)] => if lo ≤ hi ∧ hi < 256 then some (.range lo hi) else none
+  | .range rs =>
+    if rs.all (fun r => r.1 ≤ r.2 ∧ r.2 < 256) then some (.set (bitmapOf (fun c => rs.any (fun r => r.1 ≤ c ∧ c ≤ r.2))))
+    else none
+  | .set chars => some (.set (bitmapOf (fun c => chars.contains c)))
+  | .look off q => if isInt32 off then some (.look off q) else none      -- spec_look
+  | .choice ps => some (.choice ps)                                       -- spec_choice -> spec_variadic
+  | .seq ps => some (.sequence ps)                                        -- spec_sequence -> spec_variadic
+  | .if_ c q => some (.if_ c q)                                           -- spec_if -> spec_branch
+  | .ifnot c q => some (.ifnot c q)                                       -- spec_ifnot -> spec_branch
+  | .not q => some (.not q)                                               -- spec_not -> spec_onerule
+  | .any q => some (.between 0 uintMax q)                                 -- spec_any -> spec_repeater 0
+  | .some q => some (.between 1 uintMax q)                                -- spec_some -> spec_repeater 1
+  | .opt q => some (.between 0 1 q)                                       -- spec_opt
+  | .between lo hi q => if isNat31 lo && isNat31 hi then some (.between lo hi q) else none   -- spec_between
+  | .atleast n q => if isNat31 n then some (.between n uintMax q) else none                  -- spec_atleast
+  | .atmost n q => if isNat31 n then some (.between 0 n q) else none                         -- spec_atmost
+  | .repeat_ n q => if isNat31 n then some (.between n n q) else none                        -- spec_repeat / (n patt)
+  | .to q => some (.to q)                                                 -- spec_to -> spec_onerule
+  | .thru q => some (.thru q)
+  | .capture q tag => if okTag tag then some (.capture q tag) else none   -- spec_capture -> spec_cap1
+  | .accumulate q tag => if okTag tag then some (.accumulate q tag) else none
+  | .group q tag => if okTag tag then some (.group q tag) else none
+  | .drop q => some (.drop q)
+  | .onlytags q => some (.onlytags q)
+  | .replace q v tag => if okTag tag then some (.replace q v tag) else none                  -- spec_replace
+  | .cmt q (.fn f) tag => if okTag tag then some (.matchtime q (.fn f) tag) else none        -- spec_matchtime
+  | .cmt _ _ _ => none                                                    -- "expected function or cfunction"
+  | .constant v tag => if okTag tag then some (.constant v tag) else none -- spec_constant
+  | .argument n tag => if isNat31 n && okTag tag then some (.argument n tag) else none       -- spec_argument
+  | .position tag => if okTag tag then some (.position tag) else none     -- spec_position -> spec_tag1
+  | .line tag => if okTag tag then some (.line tag) else none
+  | .column tag => if okTag tag then some (.column tag) else none
+  | .backref s tag => if okTag s && okTag tag then some (.gettag s tag) else none            -- spec_reference
+  | .backmatch tag => if okTag tag then some (.backmatch tag) else none   -- spec_backmatch -> spec_tag1
+  | .unref q tag => if okTag tag then some (.unref q tag) else none
+  | .nth n q tag => if isNat31 n && okTag tag then some (.nth n q tag) else none             -- spec_nth
+  | .error none => some (.error (.int 0))                                 -- spec_error, argc == 0: compiles the number 0
+  | .error (some q) => some (.error q)
+  | .lenprefix n q => some (.lenprefix n q)                               -- spec_lenprefix -> spec_branch
+  | .sub w q => some (.sub w q)
+  | .split s q => some (.split s q)
+  | .til t q => some (.til t q)
+  | .readint w sg be tag =>                                               -- spec_readint (mask 0x10 signed, 0x20 big endian)
+    if w ≤ maxReadintWidth && okTag tag then some (.readint (w + (if sg then 16 else 0) + (if be then 32 else 0)) tag) else none
+  | .number q base tag =>                                                 -- spec_capture_number
+    if (base == 0 || (2 ≤ base && base ≤ 36)) && okTag tag then some (.capturenum q base tag) else none
+
+def asRef : Patt → Option String
+  | .ref n => some n
+  | _ => none
+
+def asGrammar : Patt → Option Scope
+  | .grammar rs => some rs
+  | _ => none
+
+/-- primitive patterns go to the global cache (root grammar table) -/
+def isPrim : Patt → Bool
+  | .str _ => true
+  | .int _ => true
+  | .bool _ => true
+  | _ => false
+
+/-- a grammar table: keyword bindings + rule cache, `proto` = enclosing table (`none` = root) -/
+structure Tbl where
+  rules : Scope
+  cache : List (Patt × Nat)
+  proto : Option Nat
+  level : Nat
+  sc : List Scope          -- ghost: `rules` of this table and of its protos, innermost first
+
+structure B where
+  code : List Nat
+  consts : List Val
+  hasBackref : Bool
+  prims : List (Patt × Nat)
+  root : List (Patt × Nat)
+  heap : List Tbl
+  log : List (Nat × Closure)   -- ghost
+
+def B.empty : B := ⟨[], [], false, [], [], [], []⟩
+
+def scOf (heap : List Tbl) : Option Nat → List Scope
+  | none => []
+  | some id => match heap[id]? with
+    | some t => t.sc
+    | none => []
+
+def levelOf (heap : List Tbl) : Option Nat → Nat
+  | none => 0
+  | some id => match heap[id]? with
+    | some t => t.level
+    | none => 0
+
+/-- janet_table_get_ex on a keyword: walk the proto chain (at most JANET_MAX_PROTO_DEPTH tables; nesting is bounded by
+    `maxProtoDepth` below, so the bound is never the reason for a miss); the root table binds no keywords -/
+def lookupKw (heap : List Tbl) : Nat → Option Nat → String → Option (Nat × Patt)
+  | 0, _, _ => none
+  | _ + 1, none, _ => none
+  | f + 1, some id, name =>
+    match heap[id]? with
+    | none => none
+    | some t =>
+      match lookupScope t.rules name with
+      | some p => some (id, p)
+      | none => lookupKw heap f t.proto name
+
+abbrev maxProtoDepth : Nat := 200
+
+/-- the keyword loop at the head of peg_compile1; returns the grammar, the form and what is left of `i` -/
+def resolveKw (dflt : Scope) (heap : List Tbl) : Nat → Option Nat → Patt → Option (Option Nat × Patt × Nat)
+  | 0, _, _ => none                                        -- `if (i == 0) peg_panic("reference chain too deep")`
+  | i + 1, g, p =>
+    match asRef p with
+    | none => some (g, p, i + 1)
+    | some name =>
+      match lookupKw heap (maxProtoDepth + 1) g name with
+      | some (g', q) => resolveKw dflt heap i (some g') q
+      | none =>
+        match lookupScope dflt name with
+        | some q => resolveKw dflt heap i g q
+        | none => none                                     -- "unknown rule"
+
+def lookupCache (c : List (Patt × Nat)) (q : Patt) : Option Nat := (c.find? (fun e => e.1.beq q)).map (·.2)
+
+def getCache (b : B) (g : Option Nat) (q : Patt) : Option Nat :=
+  if isPrim q then lookupCache b.prims q
+  else match g with
+    | none => lookupCache b.root q
+    | some id => match b.heap[id]? with
+      | some t => lookupCache t.cache q
+      | none => none
+
+def putCache (b : B) (g : Option Nat) (q : Patt) (rule : Nat) : B :=
+  if isPrim q then { b with prims := (q, rule) :: b.prims }
+  else match g with
+    | none => { b with root := (q, rule) :: b.root }
+    | some id => { b with heap := b.heap.modify id (fun t => { t with cache := (q, rule) :: t.cache }) }
+
+def reserve (b : B) (n : Nat) : B := { b with code := b.code ++ List.replicate n 0 }
+
+/-- memcpy of the header words into the reserved slot -/
+def patch (code : List Nat) (r : Nat) (ws : List Nat) : List Nat :=
+  (List.range code.length).map (fun k => if r ≤ k ∧ k < r + ws.length then ws.getD (k - r) 0 else code.getD k 0)
+
+def emitConst {ρ : Type} (i : Instr ρ) (b : B) : Nat × B :=
+  match i.constOf with
+  | some v => (b.consts.length, { b with consts := b.consts ++ [v] })
+  | none => (0, b)
+
+def B.addLog (b : B) (a : Nat) (c : Closure) : B := { b with log := (a, c) :: b.log }
+
+/-- the sub-forms one after the other (each `peg_compile1(b, argv[i])` of a spec_* function) -/
+def compileKids (k : B → Option Nat → Patt → Option (Nat × Nat × B)) : B → Option Nat → List Patt → Option (List Nat × B)
+  | b, _, [] => some ([], b)
+  | b, g, p :: ps =>
+    match k b g p with
+    | none => none
+    | some (a, _, b1) =>
+      match compileKids k b1 g ps with
+      | none => none
+      | some (as, b2) => some (a :: as, b2)
+
+abbrev guard : Nat := recursionGuard
+/-- longest reference chain `Spec.fetch` follows -/
+abbrev maxHops : Nat := 1023
+
+/-- peg_compile1.  Result: rule address, number of keyword / grammar links followed, builder. -/
+def compile1 (dflt : Scope) : Nat → B → Option Nat → Patt → Option (Nat × Nat × B)
+  | d, b, g, p =>
+    match resolveKw dflt b.heap guard g p with
+    | none => none
+    | some (g1, q, il) =>
+      let kh := guard - il
+      let c : Closure := ⟨scOf b.heap g, p⟩
+      match getCache b g1 q with
+      | some a => some (a, kh, b.addLog a c)
+      | none =>
+        match d with
+        | 0 => none                                          -- "peg grammar recursed too deeply"
+        | d' + 1 =>
+          let rule := b.code.length
+          match asGrammar q with
+          | some rules =>
+            match lookupScope rules "main" with
+            | none => none                                   -- "grammar requires :main rule"
+            | some m =>
+              if levelOf b.heap g1 + 1 ≥ maxProtoDepth then none else
+              let t : Tbl := ⟨rules, [], g1, levelOf b.heap g1 + 1, rules :: scOf b.heap g1⟩
+              match compile1 dflt d' { b with heap := b.heap ++ [t] } (some b.heap.length) m with
+              | none => none
+              | some (a, h2, b2) =>
+                if kh + 1 + h2 > maxHops then none else some (a, kh + 1 + h2, b2.addLog a c)
+          | none =>
+            match shape q with
+            | none => none
+            | some i =>
+              let b1 := reserve (putCache b g1 q rule) (encSize i)
+              match compileKids (compile1 dflt d') b1 g1 i.kids with
+              | none => none
+              | some (addrs, b2) =>
+                let cb := emitConst i b2
+                let b4 : B := { cb.2 with code := patch cb.2.code rule (encode (i.rebuild addrs) cb.1),
+                                          hasBackref := cb.2.hasBackref || i.readsTags }
+                some (rule, kh, b4.addLog rule c)
+
+structure Output where
+  entry : Nat
+  code : List Nat
+  consts : List Val
+  hasBackref : Bool
+  log : List (Nat × Closure)
+
+/-- compile_peg: empty root table, depth JANET_RECURSION_GUARD -/
+def compile (dflt : Scope) (p : Patt) : Option Output :=
+  match compile1 dflt guard B.empty none p with
+  | none => none
+  | some (a, _, b) => some ⟨a, b.code, b.consts, b.hasBackref, b.log⟩
+
+def Output.program (o : Output) : Program := { bytecode := o.code.toArray, constants := o.consts.toArray }
+
+end Compile
+end JanetModel.Peg
